@@ -118,3 +118,40 @@ def tree(ks: List[int]) -> int:
     post: _ != 2
     """
     return 2 if tree_why(_text(ks)) else 1
+
+
+
+# ---- the whole REAL grouping.group() on a statement of symbolic token kinds (no lexer) --------------------
+from sqlparse.engine import grouping as _G      # noqa: E402
+
+KTAB = [(T.Name, 'a'), (T.Wildcard, '*'), (T.Operator, '-'), (T.Punctuation, '('), (T.Punctuation, ')'), (T.Keyword.DML, 'select'),
+        (T.Whitespace, ' '), (T.Punctuation, ','), (T.Number.Integer, '1'), (T.Keyword, 'as'), (T.Punctuation, '.'), (T.Comparison, '=')]
+NKK = 6
+NTK = 5
+
+
+def ktree(kinds: List[int]) -> int:
+    """
+    pre: len(kinds) == NTK
+    pre: all(0 <= k < NKK for k in kinds)
+    pre: PART < 0 or kinds[0] == PART
+    post: _ != 2
+    """
+    toks = [sql.Token(*KTAB[conc(k, NKK - 1)]) for k in kinds]
+    before = [(t.ttype, t.value) for t in toks]
+    st = sql.Statement(list(toks))
+    try:
+        _G.group(st)
+    except Exception:
+        return 2
+    lv = list(st.flatten())
+    if len(lv) != len(toks):
+        return 2
+    for t, orig, (tt, v) in zip(lv, toks, before):
+        if t is not orig or t.value != v:
+            return 2
+        if t.ttype is not tt and not (t.ttype is T.Operator and (tt is T.Wildcard or tt in T.Operator)):
+            return 2          # a leaf was re-typed (only `*` / operators may become Operator)
+    if wf(st) is not None:
+        return 2
+    return 1
